@@ -15,14 +15,12 @@ import Scalibr.Model.Upgrade
 namespace Scalibr.Override
 open Scalibr.Upgrade
 
-/-- `getVersionsGreater` on the sorted list: `slices.BinarySearchFunc` returns the first index whose element
-does not compare below `vk` and whether it compares equal; an equal element is skipped (`offset++`), so
-further spellings of the same version — possibly `vk` itself — stay in the list. -/
+/-- `getVersionsGreater` on the sorted list (after fix e2a59457): `slices.BinarySearchFunc` returns the first index
+whose element does not compare below `vk`; then EVERY element comparing equal to `vk` is skipped (`vk` itself and any
+other spelling of it), so only versions strictly above `vk` remain. -/
 def versionsGreater (rank : Nat → Nat) (vs : List Nat) (vk : Nat) : List Nat :=
   let off := (vs.takeWhile (fun x => rank x < rank vk)).length
-  match vs[off]? with
-  | some x => if rank x = rank vk then vs.drop (off + 1) else vs.drop off
-  | none => vs.drop off
+  (vs.drop off).dropWhile (fun x => rank x = rank vk)
 
 structure Cand where
   ver : Nat       -- version identifier
